@@ -44,6 +44,7 @@ COMMANDS = {
     "DCMotor": {
         "set_speed": ["d.set_speed(0.5)", "d.set_speed(-0.25)", "d.set_speed(1.7)", "d.set_speed(-2.5)", "d.set_speed(0)", "d.set_speed(value=0.75)", "d.set_speed(1)"],
         "backward-stop-coast-invert": ["d.backward()", "d.backward(0.3)", "d.stop()", "d.set_speed(0.6)", "d.coast()", "d.invert()", "d.set_speed(0.4)", "d.invert()", "d.backward(speed=0.9)"],
+        "ramp-to-current-speed": ["d.set_speed(0.5)", "d.ramp(0.5, 400)", "d.stop()", "d.ramp(0.0, 100)", "d.ramp(0, 60)", "d.set_speed(-1)", "d.ramp(-1.0, 200)"],
         "ramp": ["d.ramp(1.0, 200)", "d.ramp(-0.5, 100)", "d.ramp(target_speed=0.25, duration_ms=60)", "d.set_speed(1.7)", "d.ramp(0.0, 100)"],
         "run_for": ["d.run_for(100, 0.5)", "d.run_for(50, -1.0)", "d.run_for(duration_ms=30, speed=0.2)"],
     },
